@@ -3,6 +3,8 @@ import SnaxVerif.Lemmas.Phs
 new operations at the end of choose ops and new choose ops keeps every valid mapping valid. -/
 namespace SnaxVerif.Phs
 
+variable [Variant]
+
 deriving instance DecidableEq for Except
 
 /-- `t'` is `t` with mux layers on top whose switches are new (index ≥ `N`) and whose lhs leads to `t` -/
